@@ -49,6 +49,18 @@ type Q struct {
 	nilChecked map[string]bool
 	needStrCmp bool
 	assumeGlobals func(h *Heap)
+	curProp string // property being checked ("" = all clauses apply)
+}
+
+// propActive: a clause / obligation family scoped to property p applies in this run.
+func (q *Q) propActive(p string) bool {
+	if p == "" {
+		return true
+	}
+	if q.curProp == "" {
+		return hasProp(q.props, p)
+	}
+	return q.curProp == p
 }
 
 func newQ(p *Prog, fnName string, bv bool) *Q {
